@@ -38,7 +38,8 @@ def shadows(sh, params):
     c11.shadows(sh, params)
 
 
-FILTERS = ['Packet', 'abstract', 'concrete', 'unrelated', 'two']
+FILTERS = ['Packet', 'abstract', 'concrete', 'unrelated', 'two', 'two_rev',
+           'abs_packet']
 
 
 def _types(direction, which):
@@ -52,7 +53,8 @@ def _types(direction, which):
         unrel = serverbound.play.ChatPacket
     return {'Packet': (Packet,), 'abstract': (AbstractKeepAlivePacket,),
             'concrete': (conc,), 'unrelated': (unrel,),
-            'two': (Packet, conc)}[which]
+            'two': (Packet, conc), 'two_rev': (conc, Packet),
+            'abs_packet': (AbstractKeepAlivePacket, Packet)}[which]
 
 
 def random_config(rnd):
@@ -71,6 +73,8 @@ FIXED = [
      ('in', 'unrelated')],
     [('early_out', 'concrete'), ('early_out', 'Packet'), ('out', 'two'),
      ('out', 'abstract')],
+    [('early_in', 'two_rev'), ('in', 'abs_packet'), ('early_out', 'two_rev'),
+     ('out', 'abs_packet')],
 ]
 
 
@@ -317,6 +321,61 @@ def same_name(ctx, sentinel=False):
     return z3.BoolVal(log == exp)
 
 
+def forced_reply(ctx):
+    """an incoming listener answers with write_packet(force=True); an early
+    outgoing listener suppresses that reply (symbolic).  Suppressing the
+    OUTGOING packet must not be mistaken for 'ignore' of the INCOMING one:
+    the built-in reaction and the later incoming listeners still run"""
+    from minecraft.networking.connection import Connection, ConnectionContext
+    from minecraft.networking.packets import Packet, clientbound, serverbound
+    from minecraft.exceptions import IgnorePacket
+    pv = 757
+    cx = ConnectionContext(protocol_version=pv)
+    history = [clientbound.play.KeepAlivePacket(
+        keep_alive_id=ctx.int('ka', 0, 127))]
+    suppress = ctx.bool('suppress')
+    log = []
+    servers = []
+
+    def factory(wld, sock):
+        s = c11.PlayServer(wld, sock, cx, history, None, None)
+        servers.append(s)
+        return s
+    with World(ctx, factory) as wld:
+        conn = Connection('host', 25565, username='u', allowed_versions=[pv])
+        wld.conn = conn
+
+        def first(p):
+            log.append('first')
+            conn.write_packet(serverbound.play.ChatPacket(message='x'),
+                              force=True)
+            log.append('first-done')
+
+        def out_early(p):
+            log.append('out_early')
+            if suppress:
+                raise IgnorePacket
+
+        def later(p):
+            log.append('later')
+        conn.register_packet_listener(first, clientbound.play.KeepAlivePacket,
+                                      early=True)
+        conn.register_packet_listener(out_early, serverbound.play.ChatPacket,
+                                      early=True, outgoing=True)
+        conn.register_packet_listener(later, clientbound.play.KeepAlivePacket)
+        conn.connect()
+        wld.run()
+    srv = servers[0]
+    chat_id = serverbound.play.ChatPacket.get_id(cx)
+    ka_id = serverbound.play.KeepAlivePacket.get_id(cx)
+    ids = [f[0] for f in srv.play_frames]
+    want_ids = ([] if bool(suppress) else [chat_id]) + [ka_id]
+    note_key(ctx, 'C13:forced_reply')
+    return z3.And(
+        z3.BoolVal(log == ['first', 'out_early', 'first-done', 'later']),
+        z3.BoolVal(ids == want_ids))
+
+
 def instances(tier, seed):
     out = []
     rnd = random.Random(seed * 31 + 5)
@@ -330,6 +389,8 @@ def instances(tier, seed):
                             note=' '.join('%s/%s' % (a, b) for a, b in cfg)))
     out.append(Instance('wire_order', 'wire_order', {}, W=96, budget_s=900))
     out.append(Instance('same_name', 'same_name', {}, W=96, budget_s=900))
+    out.append(Instance('forced_reply', 'forced_reply', {}, W=96,
+                        budget_s=900))
     out.append(Instance('sentinel:listeners', 'listeners',
                         {'config': [list(c) for c in FIXED[1]],
                          'sentinel': True}, W=96, expect='violation',
